@@ -407,6 +407,15 @@ def _transpose(it, args, kwargs):
     return _m_transpose(it, as_array(args[0]), args[1:], kwargs)
 
 
+@handler("numpy.column_stack")
+def _column_stack(it, args, kwargs):
+    cols = []
+    for a in it.iterate(args[0]):
+        a = as_array(a)
+        cols.append(a.reshape(-1, 1) if a.ndim <= 1 else a)
+    return np.concatenate(cols, axis=1)
+
+
 @handler("numpy.swapaxes")
 def _swapaxes(it, args, kwargs):
     return np.swapaxes(as_array(args[0]), _toint(args[1]), _toint(args[2]))
